@@ -424,17 +424,27 @@ func (d *dealerPart) OnSent(w *World, st *StepRec, sr sentRec, exp Exp) *Violati
 			w.st.Label("cancel_repeated")
 			return nil
 		}
+		calleeFull := false
 		if w.stalled[c.callee] && mode != "skip" {
-			// whether the INTERRUPT still fits into the silent callee's queue decides
-			// between waiting for it and answering at once
-			exp.may(c.callee, "INTERRUPT (silent callee)", func(x wamp.Message) bool { _, ok := x.(*wamp.Interrupt); return ok })
-			d.markGrey(w, c, "cancel_with_silent_callee")
-			return nil
+			x := c.callee
+			if w.sess[x].local && !w.unsure[x] && len(w.backlog[x]) >= w.queueCap(x) && len(exp[x]) == 0 {
+				// the silent callee's queue is known to be full: the INTERRUPT cannot be handed
+				// over, so there is nothing to wait for - the caller is answered at once in
+				// every mode, and nobody else notices
+				calleeFull = true
+				w.st.Label("cancel_with_full_callee_queue")
+			} else {
+				// whether the INTERRUPT still fits into the silent callee's queue decides
+				// between waiting for it and answering at once
+				exp.may(c.callee, "INTERRUPT (silent callee)", func(x wamp.Message) bool { _, ok := x.(*wamp.Interrupt); return ok })
+				d.markGrey(w, c, "cancel_with_silent_callee")
+				return nil
+			}
 		}
 		c.events++
 		c.hadTimeout = true
 		w.st.Label("cancel_" + mode)
-		canInterrupt := w.sess[c.callee].has("callee", "call_canceling")
+		canInterrupt := w.sess[c.callee].has("callee", "call_canceling") && !calleeFull
 		inv := c.inv
 		if mode != "skip" && canInterrupt {
 			mm := mode
@@ -507,6 +517,12 @@ func (d *dealerPart) OnSent(w *World, st *StepRec, sr sentRec, exp Exp) *Violati
 			exact := !progress && !c.killPending && !c.progressive && w.sess[c.caller].local && !w.unsure[c.caller] &&
 				len(w.backlog[c.caller]) >= w.queueCap(c.caller) && len(exp[c.caller]) == 0
 			if !exact {
+				if progress && !c.killPending && w.sess[c.caller].local && !w.unsure[c.caller] &&
+					len(w.backlog[c.caller]) >= w.queueCap(c.caller) && len(exp[c.caller]) == 0 {
+					// a progressive result that certainly does not fit: the router retries it for
+					// the result-retry period and then cancels the call (C07 judges that part)
+					w.st.Label("progressive_result_held_for_full_caller_queue")
+				}
 				d.markGrey(w, c, "yield_to_stalled_caller")
 				return nil
 			}
